@@ -74,3 +74,17 @@ Theorem C08_oldstring_plain : forall s : bytes,
   forallb plain_byte s = true -> decode_old_string s = Some s.
 Proof. exact old_string_plain. Qed.
 Print Assumptions C08_oldstring_plain.
+
+(* one string in encrypted string mode (length-prefixed), ANY reader state, bytes and framing:
+   whenever GetString succeeds, SkipString and the marker-aware skip succeed and leave the same
+   bytes unread - same buffer, same frames still to be pulled, same end-of-message and finished
+   flags (only the allocation counter differs: skipping allocates nothing) - and the marker-aware
+   skip reports exactly whether GetString's result is the secret marker.  GetString makes the
+   stream hold `length` bytes and reads them; SkipString discards buffer by buffer: both pull
+   exactly the frames needed. *)
+Theorem C08_same_bytes_string_enc : forall (r r1 : reader) (s : bytes),
+  get_string true r = (r1, MOk s) ->
+  (exists r1', skip_string_marker true r = (r1', MOk (bytes_eqb s secret_marker)) /\ same_rest r1 r1') /\
+  (exists r1'', skip_string true r = (r1'', MOk tt) /\ same_rest r1 r1'').
+Proof. exact lstr_same. Qed.
+Print Assumptions C08_same_bytes_string_enc.
